@@ -675,7 +675,9 @@ pub fn cmd_check(prop: Prop, tier: &str) -> i32 {
         ("wall_s", J::Num(wall)),
         ("violations", J::Int(agg.viols.len() as i64 + agg.violmore as i64)),
     ]);
-    let evdir = root().join("evidence");
+    // tools/sensitivity.sh points this elsewhere so that runs on patched trees never touch the
+    // evidence of the real tree
+    let evdir = std::env::var("SMTSIM_EVIDENCE_DIR").map(PathBuf::from).unwrap_or_else(|_| root().join("evidence"));
     let _ = std::fs::create_dir_all(&evdir);
     let evpath = evdir.join(format!("{}.json", prop.name()));
     if let Err(e) = std::fs::write(&evpath, ev.to_string()) {
